@@ -72,6 +72,7 @@ MARK_OBLIGATIONS = [
 ENV = dict(os.environ, ASAN_OPTIONS="detect_leaks=0:abort_on_error=0", UBSAN_OPTIONS="print_stacktrace=1")
 NPROC = int(os.environ.get("VERIF_JOBS", "16"))
 LAST_STDOUT_TAIL = {}
+TIMEOUTS = []   # chunks whose harness process ran into the timeout although the program it stopped at runs alone
 GEOM = {}   # program id -> (log points with a wrapped items ring, of these with count >= limit, max ring capacity,
             #                forced collections, heap payloads made, payload contents read back)
 
@@ -114,12 +115,42 @@ def run_harness(hx, items):
                 missing = [it for it in chunk if it[0] not in res]
                 first = missing[0] if missing else chunk[-1]
                 rc1, res1, err1 = run_harness_chunk(hx, [first])
-                crashes.append({"program": first[2], "seed": first[1], "rc": rc1 if rc1 != 0 else rc, "stderr": (err1 if rc1 != 0 else err)[-3000:],
+                if rc is None and rc1 == 0 and first[0] in res1:
+                    # the chunk's process hit the harness timeout (an overloaded machine), the program itself runs: not a result
+                    TIMEOUTS.append(first[0])
+                    results.update(res1)
+                    for it in missing[1:]:
+                        results.update(run_harness_chunk(hx, [it])[1])
+                    continue
+                crashes.append({"program": first[2], "seed": first[1], "rc": rc1 if rc1 != 0 else rc, "stderr": sanitizer_report(err1 if rc1 != 0 else err),
                                 "stdout_tail": LAST_STDOUT_TAIL.get(first[0], "")})
                 for it in missing[1:]:
                     rc2, res2, err2 = run_harness_chunk(hx, [it])
                     results.update(res2)
     return results, crashes
+
+
+def sanitizer_report(err):
+    """the part of stderr that says what happened: from the sanitizer's ERROR line (first 3000 characters), else the tail"""
+    i = err.find("ERROR: ")
+    return err[i:i + 3000] if i >= 0 else err[-3000:]
+
+
+def crash_message(c):
+    """short, address-free description of a crash: sanitizer error kind + the innermost frames inside janet"""
+    import re
+    text = c.get("stdout_tail", "") + c.get("stderr", "")
+    if "top level signal" in text:
+        return "top level signal"
+    err = c.get("stderr", "")
+    m = re.search(r"ERROR: (\w+Sanitizer): ([\w-]+)", err)
+    if m:
+        frames = re.findall(r"#\d+ 0x[0-9a-f]+ in (\w+) [^\n]*?/src/core/(\w+\.c):\d+", err.split("\n\n")[0])
+        return "%s %s in %s" % (m.group(1), m.group(2), " < ".join("%s (%s)" % f for f in frames[:3]) or "?")
+    m = re.search(r"runtime error: [^\n]*", err)
+    if m:
+        return m.group(0)[:160]
+    return err[-160:].strip() or "process ended"
 
 
 def run_model(exe, lines):
@@ -171,10 +202,12 @@ def gen_programs(ctx, quick, boost):
         items.append(("corpus-" + name, 0, prog))
     dist["corpus"] = len(items)
     fams = [  # (nch, total ops, quick sample, max_clauses)
-        (1, 1, None, 2), (1, 2, None, 2), (1, 3, None, 2), (1, 4, 3000 if quick else None, 2),
-        (2, 1, None, 2), (2, 2, 3000 if quick else None, 2), (2, 3, 2500 if quick else 150000, 2),
-        (3, 2, 1500 if quick else 60000, 2), (2, 4, 1500 if quick else 100000, 2), (3, 4, 1000 if quick else 60000, 1),
+        (1, 1, None, 2), (1, 2, None, 2), (1, 3, None, 2), (1, 4, None, 2),
+        (2, 1, None, 2), (2, 2, None, 2), (3, 1, None, 2), (2, 3, 6000 if quick else 200000, 2),
+        (3, 2, 3000 if quick else None, 2), (2, 4, 2500 if quick else 100000, 2), (3, 4, 1500 if quick else 60000, 1),
+        (3, 3, 1500 if quick else 40000, 1),
     ]
+    complete = []
     for nch, total, sample, mc in fams:
         size = P.family_size(nch, total, max_clauses=mc)
         tag = "E%d.%d" % (nch, total)
@@ -183,6 +216,10 @@ def gen_programs(ctx, quick, boost):
         if sample is None or sample >= size:
             idxs = range(size)
             dist[tag] = "all %d" % size
+            complete.append({"family": tag, "programs": size, "channels": nch, "operations_in_total": total, "capacities": "every vector in {0,1,2}^%d" % nch,
+                             "shapes": "every split of the %d operations over 1..4 fibers (main may have none, spawned fibers at least one)" % total,
+                             "alphabet": "%d operations: give / take / close on each channel, (ev/sleep 0), every ev/select with 1..%d ordered clauses "
+                                         "(take c | give c) on distinct channels" % (len(P.op_alphabet(nch, max_clauses=mc)), min(mc, nch))})
         else:
             r = ctx.rng.fork(tag)
             idxs = sorted(set(r.below(size) for _ in range(sample)))
@@ -199,6 +236,10 @@ def gen_programs(ctx, quick, boost):
             for k, seq in enumerate(P.pump_sequences(cap, n)):
                 items.append(("P%d.%d.%d" % (cap, n, k), 0, P.pump_program(cap, seq, heap=5, gc=3 if (k + n) % 16 == 0 else 1)))
                 npump += 1
+    complete.append({"family": "P", "programs": npump, "channels": 1, "capacities": "1..%d" % pcap, "shapes": "one fiber, 1..%d operations" % plen,
+                     "alphabet": "give / take; every sequence during which the fiber never waits (0 <= queued <= capacity); heap payloads, "
+                                 "a collection forced at every log point (every 16th program: at every interpreter safepoint)"})
+    dist["complete_families"] = complete
     dist["P: ALL non-waiting single-fiber give/take sequences, capacity 1..%d, length 1..%d, heap payloads, forced collections" % (pcap, plen)] = "all %d" % npump
 
     def heapify(k, prog):
@@ -378,6 +419,7 @@ def run(ctx, only=None):
         ctx.broken.append(broken[-1])
     boost = 3 if broken else 1          # something no longer checks: search harder
     items, dist = gen_programs(ctx, quick, boost)
+    complete_fams = dist.pop("complete_families", [])
     if only is not None:
         items = only
     ctx.say("programs: %d  %s" % (len(items), dist))
@@ -503,7 +545,7 @@ def run(ctx, only=None):
         if "program" not in c:
             by_msg.setdefault("queue-scripts", c)
             continue
-        msg = "top level signal" if "top level signal" in (c.get("stdout_tail", "") + c.get("stderr", "")) else (c.get("stderr", "")[-160:] or "process ended")
+        msg = crash_message(c)
         size = sum(len(o) for o in c["program"]["fibers"])
         if msg not in by_msg or size < sum(len(o) for o in by_msg[msg]["program"]["fibers"]):
             by_msg[msg] = c
@@ -511,9 +553,9 @@ def run(ctx, only=None):
         if "program" in c and hx:
             small = minimise(hx, c["program"], c.get("seed", 0), "crash")
             c = dict(c, program=small, prog=small, short=P.short(small), kind="crash", rng_seed=c.get("seed", 0))
-        ctx.violation("crash:" + msg[:60], dict({"kind": "crash", "detail": msg, "janet": P.janet_standalone(c["program"]) if "program" in c else None,
+        ctx.violation("crash:" + msg[:100], dict({"kind": "crash", "detail": msg, "janet": P.janet_standalone(c["program"]) if "program" in c else None,
                                                 "crashing_programs": len(crashes)}, **{k: v for k, v in c.items() if k != "detail"}),
-                      what="the implementation ended / crashed while running a channel program (%s)%s" % (msg[:80], ": " + P.short(c["program"]) if "program" in c else ""))
+                      what="the implementation ended / crashed while running a channel program (%s)%s" % (msg[:200], ": " + P.short(c["program"]) if "program" in c else ""))
         reported += 1
     if "queue" in nviol_kinds:
         q = nviol_kinds["queue"][0]
@@ -559,12 +601,15 @@ def run(ctx, only=None):
         "distinct_nontrivial": len(set(P.short(prog) for pid, seed, prog in items)),
         "rule": "a program = channel capacities + per-fiber operation lists (give/take/select/rselect/close/(ev/sleep 0)); exhaustive families "
                 "E<nch>.<total ops> enumerate every shape (<=4 fibers), every operation from the alphabet (selects with <=2 ordered clauses) "
-                "and every capacity vector in 0..2; the full 4x4x3 box is sampled (random) - see `distribution`; non-trivial = distinct program text",
+                "and every capacity vector in 0..2.  `complete_families` lists exactly which families are enumerated COMPLETELY in this run "
+                "(this tier) with their definition and size; every other E family and the full 4 fibers x 4 ops x 3 channels box (about 10^20 "
+                "programs) is SAMPLED (counts in `distribution`); non-trivial = distinct program text",
+        "complete_families": complete_fams if only is None else [],
         "samples": [P.short(prog) for pid, seed, prog in items[:2] + items[len(items) // 2:len(items) // 2 + 2] + items[-2:]],
         "distribution": dist, "programs_with_two_or_more_ops": nontrivial,
         "verdicts": verdicts, "oracle_event_counts": stats_total,
         "correspondence_programs": len(model_out or []), "correspondence_diffs": len(diffs),
-        "queue_ops": nq, "queue_diffs": len(qdiff), "mark_script_ops": nmark, "mark_script_diffs": len(mdiff),
+        "harness_chunk_timeouts": len(TIMEOUTS), "queue_ops": nq, "queue_diffs": len(qdiff), "mark_script_ops": nmark, "mark_script_diffs": len(mdiff),
         "oracle_failing_programs": len(failing), "oracle_failure_kinds": {k: len(v) for k, v in nviol_kinds.items()},
         "selfmatch_select_anomalies": selfmatch_anomalies, "cfg_bits": cfgbits, "broken": broken[:8],
         "ring_geometry": {
